@@ -1078,7 +1078,10 @@ class DropnaFrame(Blockwise):
     operation = M.dropna
 
     def _simplify_up(self, parent, dependents):
-        if self.subset is not None:
+        # Only an explicit column selection tells us which of our columns the
+        # parent needs; other parents (e.g. a rename) report their *output*
+        # labels as ``columns``
+        if self.subset is not None and isinstance(parent, Projection):
             columns = determine_column_projection(
                 self, parent, dependents, additional_columns=self.subset
             )
